@@ -99,6 +99,16 @@ func (sc *SpecCtx) call(x *SExpr) Val {
 		v := sc.eval(args[0])
 		sc.cur = saved
 		return v
+	case "atloop": // atloop(n, e): e evaluated in the heap as it was when loop n of this function was entered
+		n := sc.intLit(args[0])
+		if sc.fr == nil || sc.fr.loopEntry[n] == nil {
+			sc.fail("atloop(%d, ...): loop %d has not been entered on this path", n, n)
+		}
+		saved := sc.cur
+		sc.cur = sc.fr.loopEntry[n]
+		v := sc.eval(args[1])
+		sc.cur = saved
+		return v
 	case "tok": // tok(k): the current thread holds the build token of key k
 		k := sc.eval(args[0])
 		if sc.grant {
@@ -319,6 +329,12 @@ func (sc *SpecCtx) call(x *SExpr) Val {
 	case "base": // backing store identity of a slice
 		v := sc.eval(args[0])
 		return Val{T: tUntypedInt, C: []string{v.C[0]}}
+	case "samestart": // samestart(a, b): slices a and b start at the same element of the same backing store
+		a, b := sc.eval(args[0]), sc.eval(args[1])
+		if len(a.C) < 4 || len(b.C) < 4 {
+			sc.fail("samestart needs two slices")
+		}
+		return mkBool(and(eq(a.C[0], b.C[0]), eq(a.C[1], b.C[1])))
 	case "visited": // visited(k): key k already yielded by the map range of the current loop
 		k := sc.eval(args[0])
 		id := sc.iterID()
